@@ -47,6 +47,12 @@ def appendAsTokenFuel : Nat → Ctx → Str → Ctx
 
 def appendAsToken (c : Ctx) (inp : Str) : Ctx := appendAsTokenFuel 3 c inp
 
+/-- `TokenizerContext.commitAsToken`: outside a string literal, a pending text that is exactly a
+    keyword is tokenized before the commit -/
+def commitAsToken (c : Ctx) : Ctx :=
+  if isToken c.bucket then commit { c with done := c.done ++ c.cand, cand := tokenBytes c.bucket, bucket := [] }
+  else commit c
+
 /-- `appendAsLitteral` with the (empty) literal database -/
 def appendAsLiteral (c : Ctx) (inp : Str) : Ctx := { c with seq := c.seq ++ inp, bucket := c.bucket ++ inp }
 
@@ -56,7 +62,7 @@ def isSpecial (ch : Nat) : Bool := Gen.Tokens.specialChars.contains ch
 def parseChar (st : Ctx × Bool) (ch : Nat) : Ctx × Bool :=
   let (c, inLit) := st
   if ch = 34 then
-    let c := commit c
+    let c := if inLit then commit c else commitAsToken c
     let inLit := !inLit
     let c := if inLit then appendAsLiteral c [ch] else appendAsToken c [ch]
     (commit c, inLit)
@@ -64,8 +70,11 @@ def parseChar (st : Ctx × Bool) (ch : Nat) : Ctx × Bool :=
   else if isSpecial ch then (commit (appendAsToken c [ch]), inLit)
   else (appendAsToken c [upperC ch], inLit)
 
+/-- end of `parseLine` (outside a literal, a pending keyword is tokenized) and the final `commit` of `convert` -/
+def finish (st : Ctx × Bool) : Ctx := commit (if st.2 then st.1 else commitAsToken st.1)
+
 /-- `parseLine` followed by the final `commit`: the encoded text of one line -/
-def encodeBody (body : Str) : Bytes := (commit (body.foldl parseChar ({}, false)).1).done
+def encodeBody (body : Str) : Bytes := (finish (body.foldl parseChar ({}, false))).done
 
 /-- `extractLineParts` (after the repair); `none` = ValueError (no line number) -/
 def extractLineParts (line : Str) : Option (Nat × Str) :=
